@@ -1,7 +1,7 @@
 (* Statements over whole scripts, in the form used by C08/C09 Properties.v. *)
 From Coq Require Import List NArith ZArith Bool Ascii Arith Lia.
 From Martian.H2 Require Import Model Spec Proofs_base Proofs_flow Proofs_act Proofs_run Proofs_script
-  Proofs_props Proofs_oracle Proofs_c08 Proofs_misc.
+  Proofs_props Proofs_oracle Proofs_c08 Proofs_misc Proofs_table.
 Import ListNotations.
 Open Scope Z_scope.
 
@@ -22,8 +22,10 @@ Lemma final_faithful ls : P_faithful false ls (obs_of ls).
 Proof. exact (model_P_faithful _ _ _ (run_eta ls)). Qed.
 Lemma final_direct ls : P_direct ls (obs_of ls).
 Proof. exact (model_P_direct _ _ _ (run_eta ls)). Qed.
+Lemma final_table ls : P_table ls (obs_of ls).
+Proof. exact (model_P_table _ _ _ (run_eta ls)). Qed.
 Lemma final_P08 ls : P08 ls (obs_of ls).
-Proof. split; [apply final_faithful|apply final_direct]. Qed.
+Proof. split; [apply final_faithful|split; [apply final_direct|apply final_table]]. Qed.
 Lemma final_complete ls y s :
   out_atoms false (other y) s (concat (obs_of ls))
   ++ flat_map atoms_q (qs_of (getf (sb (final ls)) (other y)) s)
@@ -118,7 +120,8 @@ Definition w_ex : list label :=
     mk Cl (FCont 1 true); mk Cl (FData 1 false (bytes_n 3) (Some 2%N));
     mk Cl (FData 1 true (bytes_n 6) None); mk Cl (FHeaders 3 true true None 2 false);
     mk Sv (FWinUpd 1 1); mk Sv (FSettings [(4, 6)])%N; mk Sv (FPing false (bytes_n 8));
-    mk Sv (FData 1 true (bytes_n 2) None) ].
+    mk Sv (FData 1 true (bytes_n 2) None); mk Cl (FSettings [(1, 0)])%N; mk Sv FSettingsAck;
+    mk Sv (FHeaders 1 true true None 4 false) ].
 Lemma example_ok :
   rfc_valid w_ex = true /\ single_init w_ex = true /\ length (obs_of w_ex) = length w_ex
   /\ c09_ok w_ex (obs_of w_ex) = true /\ c08_ok w_ex (obs_of w_ex) = true
